@@ -79,6 +79,24 @@ def rs_ty(prog, t, lt_for_structs="a"):
     raise ValueError(t)
 
 
+def dip_param_ty(pt):
+    """Diplomat spelling of a slice / string parameter type (the std spelling is what rs_ty prints)."""
+    k = pt[0]
+    if k == "slice":
+        _, p, mut, lt, _ = pt
+        return "%s<%s%s>" % ("DiplomatSliceMut" if mut else "DiplomatSlice", "'%s, " % lt if lt else "", p)
+    if k == "str":
+        _, enc, lt, _ = pt
+        return "%s%s" % ({"utf8": "DiplomatUtf8StrSlice", "ustr": "DiplomatStrSlice", "u16": "DiplomatStr16Slice"}[enc], "<'%s>" % lt if lt else "")
+    if k == "oslice":
+        return "DiplomatOwnedSlice<%s>" % pt[1]
+    if k == "ostr":
+        return {"utf8": "DiplomatOwnedUTF8StrSlice", "ustr": "DiplomatOwnedStrSlice", "u16": "DiplomatOwnedStr16Slice"}[pt[1]]
+    if k == "strs":
+        return "DiplomatSlice<%s>" % {"utf8": "DiplomatUtf8StrSlice", "ustr": "DiplomatStrSlice", "u16": "DiplomatStr16Slice"}[pt[1]]
+    raise ValueError(pt)
+
+
 def attrs_s(attrs, indent):
     return "".join("%s%s\n" % (indent, a) for a in attrs)
 
@@ -371,6 +389,9 @@ def emit_method(prog, owner, m, bodies, indent="        "):
             ps.append("self")
     for pn, pt in m.params:
         pa = "".join(a + " " for a in getattr(m, "param_attrs", {}).get(pn, ()))
+        if pn in getattr(m, "dip_params", ()):
+            ps.append("%s%s: %s" % (pa, rust_ident(pn), dip_param_ty(pt)))
+            continue
         ps.append("%s%s: %s" % (pa, rust_ident(pn), rs_ty(prog, pt, lt_for_structs=(m.lifetimes[0] if m.lifetimes else "_"))))
     ret = "" if m.ret == ("unit",) else " -> " + rs_ty(prog, m.ret, lt_for_structs=(m.lifetimes[0] if m.lifetimes else "_"))
     sig = "(%s)%s" % (", ".join(ps), ret)
@@ -410,6 +431,10 @@ def emit_body(prog, owner, m, ind):
             args.append("crate::vf::c(&self)")
     for pn, pt in m.params:
         args.append(canon_arg_expr(prog, rust_ident(pn), pt))
+    for pn, pt in m.params:
+        if pn in getattr(m, "dip_params", ()):
+            # what the macro does for the std spelling, done by hand
+            lines.append("let %s%s: %s = %s.into();" % ("mut " if pt[0] in ("oslice", "ostr") else "", rust_ident(pn), rs_ty(prog, pt, lt_for_structs=(m.lifetimes[0] if m.lifetimes else "_")), rust_ident(pn)))
     if any(pt[0] == "write" for _, pt in m.params):
         lines.append("use core::fmt::Write as _;")
     for pn, pt in m.params:
@@ -573,7 +598,7 @@ def emit_program(prog, bodies=False, crate_attrs="", target="host"):
         out.append("#[diplomat::bridge]\n")
         out.append(attrs_s(mod.attrs, ""))
         out.append("pub mod %s {\n" % mod.name)
-        out.append("    use diplomat_runtime::{DiplomatStr, DiplomatStr16, DiplomatChar, DiplomatByte, DiplomatWrite, DiplomatOption, DiplomatResult, DiplomatSlice, DiplomatSliceMut, DiplomatStrSlice, DiplomatStr16Slice, DiplomatUtf8StrSlice};\n")
+        out.append("    use diplomat_runtime::{DiplomatStr, DiplomatStr16, DiplomatChar, DiplomatByte, DiplomatWrite, DiplomatOption, DiplomatResult, DiplomatSlice, DiplomatSliceMut, DiplomatStrSlice, DiplomatStr16Slice, DiplomatUtf8StrSlice, DiplomatOwnedSlice, DiplomatOwnedStrSlice, DiplomatOwnedStr16Slice, DiplomatOwnedUTF8StrSlice};\n")
         if target == "wasm":
             out.append("    " + WASM_PRELUDE)
         for other in getattr(mod, "uses", []):
